@@ -34,6 +34,30 @@ def panic_sites(body, include_unwrap=True):
             kind = "Option" if "option" in d else "Result"
             out.append({"kind": "unwrap", "bb": bi, "what": "%s::%s" % (kind, fn["name"]), "line": t.get("line"),
                         "macs": macs, "recv_ty": (t.get("argtys") or ["?"])[0]})
+        elif fn.get("name") in ("collect", "from_iter", "extend", "extend_one", "from_fn") and "heapless::" in (
+                str(fn.get("gargs")) + str(t.get("dty")) + str(fn.get("self_ty")) + str(fn.get("full"))) \
+                and "heapless::" in (str(t.get("dty")) + str(fn.get("self_ty")) + str(fn.get("gargs"))):
+            # heapless's infallible fillers (FromIterator / Extend) panic when the iterator yields more than the fixed
+            # capacity; the fallible ones (push, from_slice, try_from, resize, extend_from_slice) return a Result
+            out.append({"kind": "libcall", "bb": bi, "what": "fixed-capacity-%s" % fn["name"], "line": t.get("line"),
+                        "macs": macs})
+        elif fn.get("local") and "heapless::" in str(fn.get("gargs")):
+            # a crate-local generic helper instantiated with a fixed-capacity container: if the helper fills its type
+            # parameter through FromIterator / Extend, the instantiation panics on overflow
+            facts = body.facts
+            cb = facts.bodies.get(fn.get("res") or "") or facts.bodies.get(fn.get("def") or "")
+            if cb is not None:
+                for gb in [cb] + list(facts.closures_of(cb)):
+                    for gbi, gt in gb.calls():
+                        gfn = gt.get("fn") or {}
+                        tgt = str(gt.get("dty")) + str(gfn.get("gargs"))
+                        if gfn.get("name") in ("collect", "from_iter", "extend") and re.search(r"(?<![\w:])[A-Z]\w?(?![\w:])", tgt):
+                            out.append({"kind": "libcall", "bb": bi, "what": "fixed-capacity-%s-via-%s" % (
+                                gfn["name"], fn["name"]), "line": t.get("line"), "macs": macs})
+                            break
+                    else:
+                        continue
+                    break
     return out
 
 
